@@ -11,6 +11,11 @@ def main():
     replay = sys.argv[6] if len(sys.argv) > 6 else None
     spec = json.loads(spec)
     ctx = core.Ctx(prop, tier, int(seed), shard=spec, replay=bool(replay))
+    import os
+    ctx.ambient = json.loads(os.environ.get('VERIF_AMBIENT') or 'null')
+    if ctx.ambient:
+        ctx.counters['ambient.hashseed-%s' % ctx.ambient['hashseed']] += 1
+        ctx.counters['ambient.cwd-%s' % ('verif' if ctx.ambient['cwd'] == core.VERIF else 'repo' if ctx.ambient['cwd'] == core.REPO else 'root')] += 1
     cover.start()          # before athlib is imported: line coverage of the anchored functions (report only)
     core.import_athlib()
     mod = importlib.import_module('vf.props.%s' % prop.lower())
